@@ -192,6 +192,13 @@ def run(prop, tier):
             tid = "h%d" % i
             traces.append(c02_trace(tid, m, m2, direction(m)))
             tagof[tid] = m["t"]
+    if prop == "C01":
+        import repotests
+        rd = repotests.record()     # encode()/decode() calls the repository's own tests made, recorded (harness/repotrace_plugin.py)
+        for t in rd.get("pdu", []):
+            traces.append(t)
+            tagof[t["id"]] = t["tag"]
+        repotests.note(rep, rd, "pdu")
     traces = [t for t in traces if t["ev"]]
     verdicts, st = validate_traces("PduTrace", "PduTrace.cfg", traces)
     rep.add_tv(st, len(traces), sum(len(t["ev"]) for t in traces))
